@@ -110,6 +110,15 @@ def run(chk):
         if i != "err err err":
             chk.violate({"kind": "property", "case": lib.show_case(c), "impl": i[:1000], "malformed_class": k,
                          "explanation": "a malformed field (%s) was rejected the first time and accepted when it was parsed again in the same process" % k})
+    # "rejected with an error and no result" through UnmarshalControl: next to the error the receiver holds nothing of the
+    # rejected field - it is left as it was (the parse of "keep (>= 1)"), or empty
+    ec = [("dunmarshalerr", c[1]) for c in cases]
+    ei = chk.run_impl(ec)
+    chk.record("malformed-classes-receiver-after-the-error", ec, ei, lambda c, r: True)
+    for c, i, k in zip(ec, ei, kinds):
+        if i not in ("err unchanged", "err empty"):
+            chk.violate({"kind": "property", "case": lib.show_case(c), "impl": i[:1000], "malformed_class": k,
+                         "explanation": "Dependency.UnmarshalControl returned an error for a malformed field (%s) and left relations of that field in the receiver (an error and a result)" % k})
     chk.extra["malformed_classes"] = sorted(set(kinds))
     # single-edit corruptions of valid fields: model vs implementation (ok/err and structure)
     cases = []
@@ -131,7 +140,7 @@ def run(chk):
         if i in ("panic", "timeout", "err-with-value", "ok-nil") or i.startswith("runner-died"):
             chk.violate({"kind": "property", "case": lib.show_case(c), "impl": i,
                          "explanation": "the dependency parser did not answer a field with a value or an error (%s): a malformed field is rejected with an error and no result" % i})
-    chk.assumptions += ["legal spacing = any run of space, tab, CR, LF between tokens; a blank is required between a name and a following '[' or '<'",
+    chk.assumptions += ["legal spacing = any run (also the empty one) of space, tab, CR, LF between tokens; no blank is required between a name and a following '(' '[' or '<'",
                         "error messages are not compared"]
 
 
